@@ -110,7 +110,7 @@ def load_corpus():
 
 def run(ctx):
     quick = ctx.tier == "quick"
-    nA, nB, nC, nD, nE = (3000, 2500, 1500, 5000, 300) if quick else (150000, 150000, 60000, 300000, 5000)
+    nA, nB, nC, nD, nE = (3000, 2500, 1500, 5000, 300) if quick else (400000, 400000, 150000, 800000, 10000)
     ctx.assumptions += [
         "model: a Rust str is the list of its chars (scalar values as N); lines/starts_with/slice-after-prefix/join/split_whitespace mean the same on chars as on UTF-8 bytes",
         "model: char::is_whitespace = Unicode White_Space as listed in Core/Config.v (compared with the real code over ALL 1,112,064 scalar values on every run)",
